@@ -231,8 +231,13 @@ class Recorder:
 
 
 class _RecFile:
+    """Data reach the (in-memory) file when the handle is flushed or closed - what Python guarantees for a buffered
+    text/binary file; bytes still sitting in a handle that is kept open are not part of the file."""
+
     def __init__(self, rec, name, mode):
         self.rec, self.name = rec, name
+        self.buf = b""
+        self.closed = False
         if mode.startswith("w"):
             rec.files[name] = b""
         elif mode.startswith("a"):
@@ -241,18 +246,27 @@ class _RecFile:
             raise FileNotFoundError(name)
 
     def write(self, data):
+        if self.closed:
+            raise ValueError("I/O operation on closed file.")
         if isinstance(data, str):
             data = data.encode()
-        self.rec.files[self.name] += bytes(data)
+        self.buf += bytes(data)
         return len(data)
 
+    def flush(self):
+        self.rec.files[self.name] += self.buf
+        self.buf = b""
+
     def close(self):
-        pass
+        if not self.closed:
+            self.flush()
+            self.closed = True
 
     def __enter__(self):
         return self
 
     def __exit__(self, *a):
+        self.close()
         return False
 
 
